@@ -202,7 +202,8 @@ def classify_integer(j):
         return ('must-accept' if ok else 'unconstrained', neg, mag)
     if isinstance(j, str):
         neg = j.startswith('-'); body = j[1:] if neg else j; strict = None
-        if body.startswith('0x'): strict = int(body[2:], 16) if re.fullmatch(r'[0-9a-fA-F]{1,64}', body[2:]) else None
+        # canonical hex: no leading zero digit (0x0 is zero); padded spellings such as 0x0001 are exotic but unambiguous
+        if body.startswith('0x'): strict = int(body[2:], 16) if re.fullmatch(r'0|[1-9a-fA-F][0-9a-fA-F]{0,63}', body[2:]) else None
         elif body == '0' or (body and not body.startswith('0')): strict = int(body) if re.fullmatch(r'[0-9]+', body) else None
         if strict is not None: return ('unconstrained', False, 0) if neg and strict == 0 else ('must-accept', neg, strict)
         l = lenient(j)
